@@ -16,7 +16,7 @@ def run(chk):
     chk.bounds.update({'E-MIR': '6 base formulas (all operator classes, <= 3 variables, domains, wild-cards, constants); rewrites: 1-2 (thorough 3) symbolic whitespace characters (ASCII + Unicode representatives) at every pair of token boundaries, one redundant parenthesis pair around every sub-formula, every long/short operator spelling combination, the three constant spellings, consistent renaming with symbolic pairwise-distinct names of 1-2 characters',
                        'claim': 'the preprocessed tree of the rewritten text is identical to that of the base text (evaluation is a function of the tree); results are additionally compared natively for concrete variants',
                        'outside': 'formulas beyond the base list'})
-    plan = [({'kind': 'paren'}, 'one redundant pair of parentheses around any sub-formula'), ({'kind': 'spell'}, 'long vs short hybrid operators, constant spellings'),
+    plan = [({'kind': 'minparen'}, 'parentheses that precedence and right-associativity make redundant (every pair of binary operators, unary / hybrid contexts)'), ({'kind': 'paren'}, 'one redundant pair of parentheses around any sub-formula'), ({'kind': 'spell'}, 'long vs short hybrid operators, constant spellings'),
             ({'kind': 'rename', 'len': 1}, 'consistent renaming, symbolic 1-character names'), ({'kind': 'rename', 'len': 2}, 'consistent renaming, symbolic 2-character names'),
             ({'kind': 'ws', 'n': 1}, 'one symbolic whitespace character at any token boundary')]
     if thorough: plan += [({'kind': 'ws', 'n': 2}, 'two symbolic whitespace characters'), ({'kind': 'rename', 'len': 3}, 'renaming with 3-character names')]
